@@ -523,6 +523,10 @@ def _exc_key(e, delta, snap_new, taint, pats=()):
         return "upload_symlink:remote-path-not-cleared-first", unspecified
     if delta is None:
         return "raised:%s@%s:entry" % (exc, opname), unspecified
+    dest = subject if opname == "finish_renames" else (involved[1] if opname == "rename_remote" and len(involved) > 1 else None)
+    if dest is not None and (dest in SPECIAL or (pats and _ignored(pats, dest))):
+        # the remote object is renamed onto a path that is never kept in step (whatever is there is in the way)
+        return "rename-onto-upload-ignored-path", False
     fam = _explain(delta, subject, side, pats, None, opname)
     if fam:
         return fam, (unspecified and fam != "special-file-skipped-by-full-upload")
